@@ -309,6 +309,29 @@ package resource_info
 //@   ensures forall k v1.ResourceName :: k in r.scalarResources <==> (k in req.migResources || ite(k in req.scalarResources, old(r.scalarResources[k]) - req.scalarResources[k] != 0, old(k in r.scalarResources)))
 //@ end
 
+//@ func (*GpuResourceRequirement).Clone
+//@   props C01 C14
+//@   requires g != nil
+//@   fresh
+//@   ensures result.count == g.count && result.portion == g.portion && result.gpuMemory == g.gpuMemory
+//@   ensures forall k v1.ResourceName :: result.migResources[k] == g.migResources[k] && (k in result.migResources <==> k in g.migResources)
+//@   ensures forall k string :: result.draGpuCounts[k] == g.draGpuCounts[k] && (k in result.draGpuCounts <==> k in g.draGpuCounts)
+//@   ensures (g.migResources != nil ==> fresh(result.migResources)) && (g.draGpuCounts != nil ==> fresh(result.draGpuCounts))
+//@ end
+
+//@ func (*ResourceRequirements).Clone
+//@   props C01 C14
+//@   requires r != nil
+//@   fresh
+//@   ensures result.milliCpu == r.milliCpu && result.memory == r.memory
+//@   ensures forall k v1.ResourceName :: result.scalarResources[k] == r.scalarResources[k] && (k in result.scalarResources <==> k in r.scalarResources)
+//@   ensures r.scalarResources != nil ==> fresh(result.scalarResources)
+//@   ensures result.count == r.count && result.portion == r.portion && result.gpuMemory == r.gpuMemory
+//@   ensures forall k v1.ResourceName :: result.migResources[k] == r.migResources[k] && (k in result.migResources <==> k in r.migResources)
+//@   ensures forall k string :: result.draGpuCounts[k] == r.draGpuCounts[k] && (k in result.draGpuCounts <==> k in r.draGpuCounts)
+//@   ensures (r.migResources != nil ==> fresh(result.migResources)) && (r.draGpuCounts != nil ==> fresh(result.draGpuCounts))
+//@ end
+
 // ---- ResourceVector ------------------------------------------------------------------
 // C14: vector arithmetic is exact and index-wise; a shorter receiver is zero-extended first; reads outside the vector are 0.
 //@ define vget(v ResourceVector, i int) real = ite(0 <= i && i < len(v), v[i], 0.0)
